@@ -368,6 +368,13 @@ func (h *half) rewrite(b []byte, off int64) []byte {
 			out = append(out, b[pos-off:rw.Off-off]...)
 			pos = rw.Off
 		}
+		if pos == rw.Off && rw.Xor != 0 {
+			out = append(out, b[pos-off]^rw.Xor)
+			h.net.stat(func(s *Stats) { s.Rewrites++ })
+			pos++
+			h.rwIdx++
+			continue
+		}
 		if pos == rw.Off {
 			out = append(out, rw.Ins...)
 			h.net.stat(func(s *Stats) { s.Rewrites++ })
